@@ -1,4 +1,5 @@
 import Model.Framing
+import Model.FramingBodies
 import Driver.Util
 namespace DriverC19
 open Framing DriverUtil
@@ -122,6 +123,53 @@ def recvStr : Zapi.Recv → String
   | .hdrRead c => "hdrread " ++ n c | .mismatch c => "mismatch " ++ n c | .hdrErr c => "hdrerr " ++ n c
   | .bodyRead c => "bodyread " ++ n c | .framed c _ b => sp ["framed", n c, n b.length]
 
+/-! bodies -/
+def peerEntStr (p : Mrt.Peer) : String := sp [n p.typ, toHex p.bgpid, toHex p.addr, n p.asn]
+
+def ptabStr : Option (Mrt.PeerTable × Bytes) → String
+  | none => "err"
+  | some (t, _) => sp (["ok", toHex t.collector, toHex t.view, n t.peers.length] ++ t.peers.map peerEntStr)
+
+def entStr (full : Bool) (e : Mrt.Entry) : String :=
+  if full then sp [n e.peerIndex, n e.time, n e.pathId, toHex e.attrs] else sp [n e.peerIndex, n e.time, n e.pathId]
+
+def ribStr (full : Bool) : Option (Mrt.Rib × Bytes) → String
+  | none => "err"
+  | some (r, _) =>
+    -- the NLRI of a RIB_GENERIC family is opaque: shown only where it is compared (valid records)
+    let nl := if full || Mrt.isIPFamily r.afi r.safi then toHex r.nlri else "opaque"
+    sp (["ok", n r.seq, n r.afi, n r.safi, nl, n r.entries.length] ++ r.entries.map (entStr full))
+
+def parsePeerEnts : Nat → List String → List Mrt.Peer
+  | 0, _ => []
+  | k + 1, t :: id :: a :: asn :: rest => ⟨nat! t, unhex id, unhex a, nat! asn⟩ :: parsePeerEnts k rest
+  | _, _ => []
+
+def parseEnts : Nat → List String → List Mrt.Entry
+  | 0, _ => []
+  | k + 1, pi :: tm :: pid :: a :: rest => ⟨nat! pi, nat! tm, nat! pid, unhex a⟩ :: parseEnts k rest
+  | _, _ => []
+
+def b4hStr (h : Mrt.Bgp4mpHdr) : String :=
+  sp [n h.peerAS, n h.localAS, n h.ifIndex, n h.afi, toHex h.peerAddr, toHex h.localAddr]
+
+def bgp4mpStr (full : Bool) : Option Mrt.Bgp4mp → String
+  | none => "err"
+  | some (.state h o nw) => sp ["state", b4hStr h, n o, n nw]
+  | some (.message h m) => sp ["msg", b4hStr h, if full then toHex m else "len " ++ n m.length]
+
+def body2Str (v : Bool) : Bmp.Body2 → String
+  | .routeMon m => "rm " ++ toHex m
+  | .peerUp la lp rp s r info =>
+      sp ["up", toHex (if v then la else la.drop 12), n lp, n rp, toHex s, toHex r, "info", tlvStr info]
+  | .peerDownMsg reason m => sp ["downmsg", n reason, toHex m]
+  | .peerDownData reason d => sp ["down", n reason, toHex d]
+  | .peerDownInfo info => sp ["downinfo", tlvStr info]
+
+def msg2Str : Option (Bmp.Hdr × Bmp.PeerHdr × Bmp.Body2) → String
+  | none => "err"
+  | some (h, p, b) => sp ["ok", n h.ver, n h.len, n h.typ, "peer", peerStr p, body2Str (Bmp.hasV p.ptype p.flags) b]
+
 def step (s : Unit) (ts : List String) : Unit × List String :=
   let out (o : String) := (s, [o])
   match ts with
@@ -187,6 +235,41 @@ def step (s : Unit) (ts : List String) : Unit × List String :=
     | none => out "err"
     | some b => out (toHex b)
   | ["zapi.recv", v, h] => out (recvStr (Zapi.recv (nat! v) (unhex h)))
+  | ["mrt.ptab", h] => out (ptabStr (Mrt.parsePeerTable (unhex h)))
+  | ["mrt.rib", sub, glen, h] => out (ribStr true (Mrt.parseRib (nat! sub) (nat! glen) (unhex h)))
+  | ["mrt.ribshape", sub, glen, h] => out (ribStr false (Mrt.parseRib (nat! sub) (nat! glen) (unhex h)))
+  | ["mrt.attr", th, sub, glen, rh, i] =>
+    match Mrt.parsePeerTable (unhex th), Mrt.parseRib (nat! sub) (nat! glen) (unhex rh) with
+    | some (t, _), some (r, _) =>
+      match Mrt.entryPeer t r (nat! i) with
+      | some p => out (peerEntStr p)
+      | none => out "none"
+    | _, _ => out "err"
+  | ["mrt.subtype", a, sf, ap] => out (n (Mrt.subtypeOf (nat! a) (nat! sf) (b! ap)))
+  | "mrt.ribser" :: ap :: seq :: a :: sf :: nl :: cnt :: rest =>
+      out (toHex (Mrt.serRib (b! ap) ⟨nat! seq, nat! a, nat! sf, unhex nl, parseEnts (nat! cnt) rest⟩))
+  | "mrt.ptabser" :: c :: v :: cnt :: rest =>
+    match Mrt.serPeerTable ⟨unhex c, unhex v, parsePeerEnts (nat! cnt) rest⟩ with
+    | some b => out (toHex b)
+    | none => out "err"
+  | ["mrt.record", ts, typ, sub, h] => out (toHex (Mrt.serRecord (nat! ts) (nat! typ) (nat! sub) (unhex h)))
+  | ["mrt.bgp4mp", sub, h] => out (bgp4mpStr true (Mrt.parseBgp4mp (nat! sub) (unhex h)))
+  | ["mrt.bgp4mpshape", sub, h] => out (bgp4mpStr false (Mrt.parseBgp4mp (nat! sub) (unhex h)))
+  | ["mrt.bgp4mpsub", a4, ap] => out (n (Mrt.bgp4mpSubtype (b! a4) (b! ap)))
+  | ["mrt.bgp4mpser", a4, "state", pa, la, ifi, afi, p, l, o, nw] =>
+    match Mrt.serBgp4mp (b! a4) (.state ⟨nat! pa, nat! la, nat! ifi, nat! afi, unhex p, unhex l⟩ (nat! o) (nat! nw)) with
+    | some b => out (toHex b)
+    | none => out "err"
+  | ["mrt.bgp4mpser", a4, "msg", pa, la, ifi, afi, p, l, m] =>
+    match Mrt.serBgp4mp (b! a4) (.message ⟨nat! pa, nat! la, nat! ifi, nat! afi, unhex p, unhex l⟩ (unhex m)) with
+    | some b => out (toHex b)
+    | none => out "err"
+  | ["bmp.body2ser", "rm", m] => out (toHex (Bmp.serBody2 (.routeMon (unhex m))))
+  | ["bmp.body2ser", "up", la, lp, rp, sn, rc] =>
+      out (toHex (Bmp.serBody2 (.peerUp (unhex la) (nat! lp) (nat! rp) (unhex sn) (unhex rc) [])))
+  | ["bmp.body2ser", "downmsg", r, m] => out (toHex (Bmp.serBody2 (.peerDownMsg (nat! r) (unhex m))))
+  | ["bmp.body2ser", "down", r, d] => out (toHex (Bmp.serBody2 (.peerDownData (nat! r) (unhex d))))
+  | ["bmp.msg2", h] => out (msg2Str (Bmp.parseMsg2 (unhex h)))
   | _ => out "bad-op"
 
 def main : IO Unit := do
